@@ -315,7 +315,10 @@ def monC20 (h : Hist) : Option String :=
           else if !c.deadline then some s!"exchange {ri.n}: background revalidation request carries no deadline"
           else if c.t0 ≠ x.res.t0 then some s!"exchange {ri.n}: background revalidation started {c.t0 - x.res.t0} ns after the response was returned"
           else
-            let T := effTimeout h
+            -- the caller's own deadline (dl:<ns> from the start of the exchange) also bounds the background request
+            let T := match ri.cancel.splitOn ":" with
+              | ["dl", d] => min (effTimeout h) (toInt d)
+              | _ => effTimeout h
             let rp ← h.reply ri.n c.k
             let callerCancelled := ri.cancel == "before" || ri.cancel == "after"
             if callerCancelled then none else
@@ -402,7 +405,9 @@ def monC16 (h : Hist) : Option String :=
   first? [
     h.own.head?.map fun n => s!"exchange {n}: the header map of a response was modified after it had been returned to the caller",
     h.reqcmp.findSome? fun p => if p.2 then none else some s!"exchange {p.1}: the caller's request object was modified",
-    h.share.reverse.head?.map fun p => s!"exchange {p.1}: the background revalidation uses the caller's own {p.2} after RoundTrip has returned (the caller may reuse it once the body is closed)",
+    h.share.reverse.head?.map fun p =>
+      if p.2.startsWith "response-header" then s!"exchange {p.1}: the response returned shares its header map with the {p.2.replace "-" " "}: a response belongs to its caller"
+      else s!"exchange {p.1}: the background revalidation uses the caller's own {p.2} after RoundTrip has returned (the caller may reuse it once the body is closed)",
     h.reqs.findSome? fun ri => do
       let x ← h.ex ri
       match x.res.kind with
